@@ -1,11 +1,12 @@
 CONSTANTS
-  MaxItems = 4
+  MaxItems = 2
   ChunkSize = 2
   QueryCacheMax = 1
   MaxEdits = 2
   Queries = {"", "a", "b", "ab"}
   MaxReloads = 1
-  AllowOlder = TRUE
+  AllowOlder = FALSE
 SPECIFICATION Spec
-INVARIANTS PublishedIsFilter ShownIsFilter MergerCacheSound ChunkCacheSound ConvergenceStrict
+INVARIANTS PublishedIsFilter ShownIsFilter MergerCacheSound ChunkCacheSound Convergence
+PROPERTY Liveness
 CHECK_DEADLOCK FALSE
